@@ -140,6 +140,8 @@ value_t select_command(call_scope_t& args)
 
     if (keyword == "select") {
       expr_t  args_expr(arg);
+      if (! args_expr.get_op())
+        throw_(std::logic_error, _f("Invalid column list in select: %1%") % arg);
       value_t columns(split_cons_expr(args_expr.get_op()));
       bool    first = true;
       string  thus_far = "";
